@@ -18,7 +18,7 @@ func init() {
 			"D2 three-way split of GetValueAtQuantile — rank = q·(GetCount()−1) (or its clamp at 0); rank < negTotal → −Value(negative.KeyAtRank(negTotal−1−rank)); rank < zero+negTotal → 0; otherwise Value(positive.KeyAtRank(rank−zero−negTotal)); rank arguments compared as linear forms. "+
 			"D3 KeyAtRank in every store: the qualifying test is the strict `cumulative > rank`, accumulation runs in ascending index order (array order / sorted bins with an ascending less-function / predicate evaluated after every cumulative update in the paginated store), and the fallback is the maximum index. "+
 			"D4 Value(i) = LowerBound(i)·(1 + RelativeAccuracy()) in every mapping. D5 batch = singles (C12-D4). "+
-			"SHARED (obligations of other properties that decide clauses this property states too, re-evaluated here under their home rule ids): C04-D1/D2/D3/D5/D6/D9 and C05-D8 for the non-collapsing stores (the add side of the stores: a value is counted in the bin of its index — entry points, window, shift and slot discipline of the dense store, page table and page use of the paginated store, guarded entries of the sparse store). C16-D1 (a reweighting scales the zero weight and both sides alike: the rank split keeps its proportions). C17-D2 and the ChangeMapping row of the exact variant's wrapper as C17-D5 (the source of a mapping change keeps its stores, zero weight and statistics). C19-D1 protobuf part (each mapping kind writes its own interpolation tag and is rebuilt as the same kind: a sketch that came out of a message keeps the accuracy of the mapping it was built with). C10-D4 and, as C01-D5, the AddWithCount row of the C10-D1 wrapper table (the exact variant clamps every answer into [exact min, exact max] and those extremes follow every weighted add). C03-D1…D5 (the structural conditions on every mapping kind: floor idiom of Index, LowerBound/Value inverting the same term, range bounds, reported accuracy inverting the construction formula, gamma computed from an accuracy only inside the accuracy constructor of its kind, interpolation constants) — the answer to a quantile query is Value(index) of such a mapping. C14-D1 for KeyAtRank / GetValueAtQuantile(s): a quantile query leaves no observable write, so the guarantee holds for every query and not only the first. C12-D4 (the batch query stores, for every element, exactly the single-query answer for that quantile — no post-processing across elements); C14-D2 for DDSketch.Copy (a copy does not share stores with its original, empty ones included). "+
+			"SHARED (obligations of other properties that decide clauses this property states too, re-evaluated here under their home rule ids): C04-D1/D2/D3/D5/D6/D9 and C05-D8 for the non-collapsing stores (the add side of the stores: a value is counted in the bin of its index — entry points, window, shift and slot discipline of the dense store, page table and page use of the paginated store, guarded entries of the sparse store). C19-D2/D3 (Equals: the gate in front of every merge and decode) and C02-D2/D3/D4 for the non-collapsing stores (a sketch filled by merging: every bin of the argument added once, the argument neither written nor captured). C16-D1 (a reweighting scales the zero weight and both sides alike: the rank split keeps its proportions). C17-D2 and the ChangeMapping row of the exact variant's wrapper as C17-D5 (the source of a mapping change keeps its stores, zero weight and statistics). C19-D1 protobuf part (each mapping kind writes its own interpolation tag and is rebuilt as the same kind: a sketch that came out of a message keeps the accuracy of the mapping it was built with). C10-D4 and, as C01-D5, the AddWithCount row of the C10-D1 wrapper table (the exact variant clamps every answer into [exact min, exact max] and those extremes follow every weighted add). C03-D1…D5 (the structural conditions on every mapping kind: floor idiom of Index, LowerBound/Value inverting the same term, range bounds, reported accuracy inverting the construction formula, gamma computed from an accuracy only inside the accuracy constructor of its kind, interpolation constants) — the answer to a quantile query is Value(index) of such a mapping. C14-D1 for KeyAtRank / GetValueAtQuantile(s): a quantile query leaves no observable write, so the guarantee holds for every query and not only the first. C12-D4 (the batch query stores, for every element, exactly the single-query answer for that quantile — no post-processing across elements); C14-D2 for DDSketch.Copy (a copy does not share stores with its original, empty ones included). "+
 			"NOT DECIDED: the accuracy bound itself, bin edges, rank rounding at integer ranks, numerics of Index/LowerBound, the paginated store's interleaving of buffer and pages as a function on counts.",
 		"one obligation per routing cell, per quantile path, per store × KeyAtRank clause, per mapping",
 		true, runC01)
@@ -47,6 +47,12 @@ func runC01(c *Ctx) {
 	// built with — each kind writes its own interpolation tag and the reader arm of that tag rebuilds the same kind
 	c.shared(func() { c19Proto(c, mappingInfos(c, "C01")) }, func(o *Obligation) bool { return true })
 	c10Wrappers(c, a, "C01-D5", "AddWithCount")
+	// sketches are also filled by merging: the mapping gate (Equals: two mappings that differ are never equal), and the
+	// store merges (every bin of the argument added once, the argument neither written nor captured)
+	c.shared(func() { c19Equals(c, mappingInfos(c, "C01")) }, func(o *Obligation) bool { return true })
+	c.shared(func() { c02ArgUntouched(c, a, "C02-D2"); c02AnyKind(c, a); c02DenseAdds(c, "C02-D4") }, func(o *Obligation) bool {
+		return !strings.Contains(o.Key, "Collapsing") && !strings.Contains(o.Func, "Collapsing")
+	})
 	// the guarantee is about what was added, whatever was done to the sketch in between without adding: a
 	// reweighting scales the zero weight and both sides alike (the rank split keeps its proportions), and a mapping
 	// change leaves its source — statistics of the exact variant included — answering as before
